@@ -126,12 +126,6 @@ theorem infer_sound_partial {G fuel params ret body σ0 r}
 provides (one `LocalId` per binder); e.g. `fun x => lookupScope x (params ++ binders tree)` when the ids are distinct -/
 def BinderTable (B : Nat → Option Ty) (params : List (Nat × Ty)) (t : TExpr) : Prop := BIn B (params ++ binders t)
 
-theorem envAll_params {B} : ∀ (ps : List (Nat × Ty)) Γ, BIn B ps → EnvAll B Γ → EnvAll B (insertParams ps Γ)
-  | [], _, _, h => h
-  | (x, t) :: ps, Γ, hB, h => by
-    simp only [insertParams]
-    exact envAll_params ps _ (fun p hp => hB p (List.mem_cons_of_mem _ hp)) (h.insert (hB (x, t) List.mem_cons_self))
-
 /-- **Every tree generation returns is justified by the queue it returns** (no per-function certificate):
 if `typecheck_fn` up to `solve` pushed no diagnostic, every obligation of the elaborated body — and "the body has
 the declared result type" — is an identity, a queued `TypeEqual` (`rel`), a queued `StructFieldAccess` (`fld`), a
